@@ -1,4 +1,16 @@
 #include "h_env.h"
+#include <sanitizer/asan_interface.h>
+
+/* ---- hooks called by the library when built with -DSCPI_PARSER_VERIF ---- */
+void (*h_parse_hook_fn)(scpi_t *, const char *, int) = NULL;
+unsigned long h_poison_calls = 0;
+void scpi_verif_parse_hook(scpi_t *context, const char *data, int len) { if (h_parse_hook_fn) h_parse_hook_fn(context, data, len); }
+void scpi_verif_input_hook(scpi_t *context, int stored) {
+    char *d = context->buffer.data; size_t n = context->buffer.length, p = context->buffer.position;
+    if (!d || !n) return;
+    if (!stored) ASAN_UNPOISON_MEMORY_REGION(d, n);
+    else if (p + 1 < n) { ASAN_POISON_MEMORY_REGION(d + p + 1, n - p - 1); h_poison_calls++; }
+}
 
 static h_env_t *env_of(scpi_t *ctx) { return (h_env_t *) ctx->user_context; }
 
@@ -47,6 +59,7 @@ void h_env_clear_capture(h_env_t *e) {
     e->out_len = 0; e->out[0] = 0; e->flushes = 0; e->n_errcb = 0; e->n_srq = 0; e->resets = 0;
 }
 void h_env_free(h_env_t *e) {
+    ASAN_UNPOISON_MEMORY_REGION(e->inbuf, e->inbuf_len ? e->inbuf_len : 1);
     free(e->inbuf); free(e->queue); free(e->heap); free(e->out);
 }
 
